@@ -41,6 +41,10 @@ def tasks(tier, seed):
     for L in (4, 5) if q else (4, 5, 6):
         for istart in range(L):
             ts.append(dict(name=f'trees_L{L}_n1_s{istart}_small', kind='trees', L=L, ntrees=1, istart0=istart, maxh=2, edges=2, cut=5))
+    # identity id different from 0 (padding must use the id handed in; the id 0 is then an ordinary operator)
+    for L in (2, 3, 4):
+        for istart in range(L):
+            ts.append(dict(name=f'trees_L{L}_n1_s{istart}_ident1', kind='trees', L=L, ntrees=1, istart0=istart, maxh=2, edges=2, oid_identity=1, cut=5))
     if not q:
         for istart in range(5):
             ts.append(dict(name=f'trees_L5_n1_s{istart}_e3', kind='trees', L=5, ntrees=1, istart0=istart, maxh=3, edges=3, cut=5))
@@ -55,7 +59,7 @@ def tasks(tier, seed):
 
 
 def required_marks(tier):
-    return ['tree_leaf_padded', 'tree_leaf_at_terminal', 'tree_list_of_two', 'aut_dead_state_pruned', 'aut_no_path_rejected',
+    return ['identity_id_nonzero', 'tree_leaf_padded', 'tree_leaf_at_terminal', 'tree_list_of_two', 'aut_dead_state_pruned', 'aut_no_path_rejected',
             'aut_self_loop', 'aut_parallel_edges', 'aut_site_dependent', 'dense_tree_mixed_heights', 'dense_graph_dir0']
 
 
@@ -103,14 +107,17 @@ def path_trees(eng, acc, task):
         trees.append(OpTree(root, istart))
     if len(trees) == 2:
         eng.mark('tree_list_of_two')
-    inputs = dict(L=L, trees=[dict(istart=t.istart, root=tree_to_json(t.root)) for t in trees])
-    ref = W.trees_words(trees, L, IDENT)
+    ident = task.get('oid_identity', IDENT)
+    if ident != 0:
+        eng.mark('identity_id_nonzero')
+    inputs = dict(L=L, oid_identity=ident, trees=[dict(istart=t.istart, root=tree_to_json(t.root)) for t in trees])
+    ref = W.trees_words(trees, L, ident)
     for t in trees:
         for w in W.tree_words(t.root):
             eng.mark('tree_leaf_at_terminal' if len(w) == L - t.istart else 'tree_leaf_padded')
     fails = []
     try:
-        g = OpGraph.from_optrees(trees, L, IDENT)
+        g = OpGraph.from_optrees(trees, L, ident)
     except Exception as e:
         reraise_internal(e)
         import traceback
